@@ -185,6 +185,14 @@ rev_fns!(E16, rt_feed_e16, rt_adv_e16, |v: i64| E16(v, !v), |x: &E16| if x.1 == 
     for i in 0..n { v.push(base + i as u64); }
     if n % 3 == 2 && !v.is_empty() { let x = v.remove(0); v.insert(0, x); }
     let sum = v.iter().fold(0u64, |a, x| a.wrapping_mul(31).wrapping_add(*x));
+    if n % 2 == 1 {
+        // a COPY of the C-built vector is Rust's own: growing it past its capacity and releasing it must not involve the C side's functions
+        // (the C driver's reserve/drop functions complain about any buffer they did not hand out)
+        let mut c = v.clone();
+        let extra = c.capacity() - c.len() + 1;
+        for i in 0..extra { c.push(i as u64); }
+        drop(c);
+    }
     drop(v);
     sum
 }
